@@ -5,7 +5,8 @@ import CaresLemmas.ChanPolicyFrame
 
 `execG` is `exec` with an assertion at the entry of every *nested* procedure call (the calls a procedure body makes
 through `go`): a call `probe srvId key` (`ares_probe_failed_server`) asserts `trigOk`, a call
-`sendNolock … owner := probe` (the creation of a probe query) asserts `probeSendOk`.  A failed assertion aborts the run
+`sendNolock … owner := probe pid` (the creation of a probe query) asserts `probeSendOk` and that the callback's argument
+`pid` is the probed server.  A failed assertion aborts the run
 the way running out of fuel does (`St.oof`: the sticky flag `outOfFuel` is set).  `CaresLemmas/ChanPolicyProbe2Run.lean`
 proves that the assertions never fail: `execG fuel c s = exec fuel c s`.
 -/
@@ -31,18 +32,18 @@ def probeSendOk (id : Nat) (s : St) : Bool :=
 
 /-- the assertion made at the entry of a call -/
 def ProbeGuard : Call → St → Bool
-  | .sendNolock srv nocache noretry _ .probe react, s =>
+  | .sendNolock srv nocache noretry _ (.probe pid) react, s =>
     (match srv with
-     | some id => nocache && noretry && react.isEmpty && probeSendOk id s
+     | some id => nocache && noretry && react.isEmpty && pid == id && probeSendOk id s
      | none => false)
   | .probe srvId key, s => trigOk srvId key s
   | _, _ => true
 
 /-- `go` with the assertion in front -/
 def guardGo (go : Call → St → St × Ret) : Call → St → St × Ret
-  | .sendNolock srv nocache noretry spec .probe react, s =>
-    if ProbeGuard (.sendNolock srv nocache noretry spec .probe react) s
-    then go (.sendNolock srv nocache noretry spec .probe react) s else s.oof
+  | .sendNolock srv nocache noretry spec (.probe pid) react, s =>
+    if ProbeGuard (.sendNolock srv nocache noretry spec (.probe pid) react) s
+    then go (.sendNolock srv nocache noretry spec (.probe pid) react) s else s.oof
   | .probe srvId key, s => if ProbeGuard (.probe srvId key) s then go (.probe srvId key) s else s.oof
   | c, s => go c s
 
@@ -69,7 +70,7 @@ theorem guardGo_of_not_guard (go : Call → St → St × Ret) (c : Call) (s : St
     exfalso
     unfold ProbeGuard at h
     split at h
-    · exact h1 _ _ _ _ _ rfl
+    · exact h1 _ _ _ _ _ _ rfl
     · exact h2 _ _ rfl
     · cases h
 
